@@ -378,6 +378,21 @@ def _run(plan, base):
                 # finds nothing that explains it
                 stats["fidelity_mismatch"] = (f"output under real joblib differs from the 1-worker/simulated output "
                                               f"(ns={ns} nbatch={plan['nbatch']} nproc={plan['nproc']})")
+        # g': the saturation flags describe their samples whatever the schedule.  The code legitimately lets the
+        # last writer win where two batches overlap, and the two writers only disagree at the very last sample of the
+        # earlier batch (it has no slew estimate there): those positions are excluded, everything else must agree
+        # with the one-worker run.
+        qa = np.load((outs["ref"].parent / "qc" if plan.get("qc_path") else outs["ref"].parent) / "_iblqc_ephysSaturation.samples.npy")
+        qb = np.load((outs["sim"].parent / "qc" if plan.get("qc_path") else outs["sim"].parent) / "_iblqc_ephysSaturation.samples.npy")
+        if qa.shape == qb.shape:
+            amb = np.zeros(qa.shape[0], dtype=bool)
+            k = 0
+            while k * stride + plan["nbatch"] - 1 < qa.shape[0]:
+                amb[k * stride + plan["nbatch"] - 1] = True
+                k += 1
+            diff = np.flatnonzero((qa != qb) & ~amb)
+            if len(diff):
+                raise Violation("C06.g", f"{sigbase}:saturation-content", f"saturation flags differ from the 1-worker run at {len(diff)} samples that are not batch-end samples (first {diff[0]}); saturated stretches={plan['saturate']} workers={plan['nproc']}")
         # d: byte-identical for any number of workers / schedule
         a = outs["ref"].read_bytes()
         b = outs["sim"].read_bytes()
